@@ -1420,7 +1420,7 @@ BASE_WEIGHTS = {
     "C10": {"construct": 5, "twin": 2, "drop": 2, "detach_self": 2, "detach": 1.5, "duplicate": 3, "dc_replace": 3, "replace": 3,
             "ser": 2, "deser": 2.5, "crash": 0.5, "transform": 3, "poke": 2, "findall": 1.5, "walkgen": 1, "gen_next": 1, "tree": 1, "obs": 5},
     "C01": {"construct": 6, "twin": 6, "drop": 2, "detach_self": 1.5, "detach": 1, "duplicate": 2, "dc_replace": 3, "replace": 2,
-            "ser": 1, "deser": 1, "peer_cid": 1.2, "peer_roundtrip": 0.5, "transform": 0.5},
+            "ser": 1, "deser": 1, "peer_cid": 1.5, "transform": 0.5},
     "C04": {"construct": 5, "twin": 3, "drop": 2, "crash": 3, "detach_self": 1.5, "detach": 1, "duplicate": 1, "dc_replace": 1, "replace": 1.5,
             "ser": 6, "deser": 7, "peer_roundtrip": 1.0},
     "C09": {"construct": 5, "twin": 2, "drop": 2, "detach_self": 1.5, "detach": 1, "duplicate": 1, "replace": 1, "transform": 8, "obs": 0.5},
